@@ -50,6 +50,25 @@ E_CONTEXTS = {
     "theme": (["--no-gitconfig", "--syntax-theme", "Monokai Extended"] + E_DECO, True),
     "sbs": (["--no-gitconfig", "--syntax-theme", "Monokai Extended", "--side-by-side"] + E_DECO, True),
 }
+# grep output (rg --json on standard input), both layouts: option -> (token painted with it, is it code)
+INPUT_G = (b'{"type":"begin","data":{"path":{"text":"src/locFile.rs"}}}\n'
+           b'{"type":"match","data":{"path":{"text":"src/locFile.rs"},"lines":{"text":"fn locMain() { let locRest = 1; }\\n"},'
+           b'"line_number":77,"absolute_offset":0,"submatches":[{"match":{"text":"locMain"},"start":3,"end":10}]}}\n'
+           b'{"type":"context","data":{"path":{"text":"src/locFile.rs"},"lines":{"text":"pub struct locCtx;\\n"},'
+           b'"line_number":78,"absolute_offset":30,"submatches":[]}}\n')
+G_OPTIONS = {
+    "grep-match-line-style": ("locRest", True),
+    "grep-context-line-style": ("locCtx", True),
+    "grep-match-word-style": ("locMain", True),
+    "grep-line-number-style": ("77", False),
+    "grep-file-style": ("locFile", False),
+}
+# style options that do not govern grep lines, at values other than their defaults: what a grep style paints must not depend on them
+G_BYSTANDERS = [[], ["--hunk-header-style", "blue"], ["--hunk-header-style", "normal"], ["--zero-style", "red"],
+                ["--plus-style", "syntax green", "--minus-style", "red"], ["--file-style", "yellow", "--hunk-header-file-style", "red"],
+                ["--hunk-header-line-number-style", "red", "--line-numbers-zero-style", "red"],
+                ["--hunk-header-style", "file line-number bold yellow", "--hunk-header-decoration-style", "none"],
+                ["--commit-style", "red", "--blame-code-style", "blue"], ["--inline-hint-style", "red", "--whitespace-error-style", "blue"]]
 BASE = ["--no-gitconfig", "--syntax-theme", "none", "--width", "80", "--file-decoration-style", "none",
         "--hunk-header-decoration-style", "none", "--commit-decoration-style", "none", "--max-line-distance", "0"]
 
@@ -158,6 +177,25 @@ def observe_e(opt, ws, ctx, truecolor="always", comp=True):
     return r, {"fg": [-1], "bg": [-1], "at": [], "row": b""}
 
 
+def observe_g(opt, ws, layout, theme, by, truecolor="always"):
+    tok, code = G_OPTIONS[opt]
+    args = (["--no-gitconfig", "--width", "120", "--syntax-theme", "Monokai Extended" if theme else "none", "--grep-output-type", layout,
+             "--true-color", truecolor] + G_BYSTANDERS[by] + [f"--{opt}", " ".join(ws)])
+    r = core.run_delta(args, INPUT_G, allow_usage_error=True)
+    if r.code != 0:
+        return r, None
+    amap = {"bold": 1, "dim": 2, "italic": 3, "ul": 4, "blink": 5, "reverse": 7, "hidden": 8, "strike": 9}
+    for b in r.out.split(b"\n"):
+        cs, pen = lexer.cells(lexer.tokens(b))
+        text = "".join(c[0] for c in cs)
+        # (the file style is looked at in the file's own row in the ripgrep layout, in front of the match otherwise)
+        i = text.find(tok)
+        if i >= 0 and len(text) == len(cs):
+            g, fg, bg, at, lk = cs[i]
+            return r, {"fg": list(fg), "bg": list(bg), "at": sorted(amap[a] for a in at), "row": b}
+    return r, {"fg": [-1], "bg": [-1], "at": [], "row": b""}
+
+
 def shown(opt, style, truecolor):
     tok, extra = OPTIONS.get(opt, ("", []))
     r = core.run_delta(BASE + extra + ["--true-color", truecolor, f"--{opt}", style, "--show-config"], b"",
@@ -229,12 +267,31 @@ def run(tier):
                 for comp in ((True, False) if "emph" in opt else (False,)):    # (the line style left at its default, too)
                     jobs.append((ws, opt, "always" if (i + len(ctx)) % 3 else "never", ("ctx", ctx, comp)))
 
+    # grep lines (rg --json input), classic and ripgrep layout, with and without a theme: the grep styles mean what they say whatever
+    # the style options of other elements are set to
+    gvocab = ["red", "#0a141e", "normal", "syntax", "bold", "italic", "7"]
+    gstrings = [list(t) for n in range(1, 3 if tier == "quick" else 4) for t in itertools.product(gvocab, repeat=n)]
+    gi = 0
+    for ws in gstrings:
+        for opt, (tok, code) in G_OPTIONS.items():
+            if not code and "syntax" in ws:
+                continue
+            for layout in ("ripgrep", "classic"):
+                for theme in (False, True):
+                    gi += 1
+                    bys = range(len(G_BYSTANDERS)) if tier == "thorough" else {gi % len(G_BYSTANDERS), 1 + gi // 3 % 2, 7 * (gi % 2)}
+                    for by in sorted(bys):
+                        jobs.append((ws, opt, "always" if gi % 4 else "never", ("grep", layout, theme and code, by, theme)))
+
     # 256-colour mode: a direct colour that is exactly an entry of the palette (colour cube, grey ramp) comes out as that entry
     for n in range(16, 256):
         jobs.append((["#%02x%02x%02x" % pal_rgb(n)], ["plus-style", "minus-style", "zero-style", "file-style"][n % 4], "never", False))
 
     def one(job):
         ws, opt, tc, rt = job
+        if isinstance(rt, tuple) and rt[0] == "grep":
+            r, obs = observe_g(opt, ws, rt[1], rt[4], rt[3], tc)
+            return r, obs, 2
         if isinstance(rt, tuple):
             r, obs = observe_e(opt, ws, rt[1], tc, rt[2])
             return r, obs, 2
@@ -264,7 +321,7 @@ def run(tier):
             continue
         events.append({"run": i, "ws": [lex_word(w) for w in ws], "rejected": rejected,
                        "fg": obs["fg"] if obs else [], "bg": obs["bg"] if obs else [], "at": obs["at"] if obs else [],
-                       "exact": tc == "always", "rt": rtv, "theme": isinstance(rt, tuple) and E_CONTEXTS[rt[1]][1],
+                       "exact": tc == "always", "rt": rtv, "theme": isinstance(rt, tuple) and (rt[2] if rt[0] == "grep" else E_CONTEXTS[rt[1]][1]),
                        "pal": pal_entries(ws)})
     if notfound > len(jobs) // 50:
         raise core.ToolError(f"the painted token was not found in {notfound} outputs")
@@ -319,9 +376,11 @@ def run(tier):
         ws, opt, tc, rt = jobs[f["run"]]
         r, obs, rtv = res[f["run"]]
         where = ""
-        if isinstance(rt, tuple):
+        if isinstance(rt, tuple) and rt[0] == "grep":
+            where = f", grep output, layout {rt[1]}, theme {'on' if rt[4] else 'off'}, beside {' '.join(G_BYSTANDERS[rt[3]]) or 'defaults'}"
+        elif isinstance(rt, tuple):
             where = f", context {rt[1]}" + (f", --{opt.split('-')[0]}-style '{' '.join(companion(ws))}'" if rt[2] and "emph" in opt else "")
-        V.violation(f"{f['why']}:{opt}:{tc}:{' '.join(ws)}" + (f":{rt[1]}:{rt[2]}" if isinstance(rt, tuple) else ""),
+        V.violation(f"{f['why']}:{opt}:{tc}:{' '.join(ws)}" + (":" + ":".join(str(x) for x in rt[1:]) if isinstance(rt, tuple) else ""),
                     f"{f['why']}: --{opt} '{' '.join(ws)}' (true-color {tc}{where}) rendered as "
                     f"{ {k: obs[k] for k in ('fg', 'bg', 'at')} if obs else 'rejected: ' + r.err[:100].decode('utf-8', 'replace')}",
                     {"words": ws, "option": opt, "run": r.to_json()})
@@ -333,10 +392,11 @@ def run(tier):
                 "<= 5 words over 8 word kinds); all 256 palette numbers in each slot; seeded #rrggbb pairs; seeded strings over all "
                 "colour names (both bright spellings) and attributes with random letter case, quoting and no-op words; eight "
                 "style-typed options; 24-bit and 256-colour mode; --show-config round trip on a subset",
-        "options": sorted(set(OPTIONS) | set(E_OPTIONS) | set(BLAME_OPTS)),
+        "options": sorted(set(OPTIONS) | set(E_OPTIONS) | set(BLAME_OPTS) | set(G_OPTIONS)),
         "contexts": "header / line / number styles: unified, no theme; emphasis, non-emphasis and line styles: {no theme, Monokai Extended, "
                     "Monokai Extended + side-by-side} on a .rs file, with `syntax` as a colour word and a neighbouring line style that "
-                    "paints alike",
+                    "paints alike; grep styles: rg --json input in the classic and the ripgrep layout, with and without a theme, beside non-default "
+                    "values of the style options of other elements (hunk header, hunk lines, file, numbers, commit, blame)",
         "samples": [{"style": " ".join(jobs[i][0]), "option": jobs[i][1], "observed": {k: res[i][1][k] for k in ("fg", "bg", "at")}
                      if res[i][1] else None} for i in (3, 700, len(jobs) - 1)],
         "exhaustive": True,
